@@ -219,7 +219,9 @@ def run_case(case, cpu_budget=120.0, record_args=False, delay=None, workdir=None
         tasks.register_run(prid, psp)
         try:
             from .relational import optimize_plain
-            optimize_plain(opt, tasks.build_task(psp, prid), mode="serial", workers=2, cpu_budget=cpu_budget)
+            ra = psp.get("_raise_after")
+            optimize_plain(opt, tasks.build_task(psp, prid, extra_data={"raise_after": ra} if ra is not None else None),
+                           mode="serial", workers=2, cpu_budget=cpu_budget)
         except Exception:
             pass
         finally:
